@@ -1,0 +1,22 @@
+//go:build verif
+
+// ASSUMED contracts for the two governance getters the network-delegation handlers (C12) depend on.
+// Package governance has no contract file of its own yet; nothing here is verified against the
+// bodies in store.go (they read the serialized option records of the governance State prefix).
+// Comment-only file, read by /verif/govc.
+
+package governance
+
+// govNdMaturity(st): the RewardsMaturityTime of the network-delegation options currently in force
+//@ model govNdMaturity(*Store) int
+
+// GetPoolByName: the pool list is rebuilt from constants on every call; the delegation pool is
+// keys.Address(network_delegation.DELEGATION_POOL_KEY) = the 20 ASCII bytes "00000000000000000001"
+//@ assume func (*Store).GetPoolByName
+//@   modifies nothing
+//@   ensures err == nil && poolName == POOL_DELEGATION ==> str(address) == "00000000000000000001"
+
+// GetNetworkDelegOptions: on success a non-nil options record holding the maturity period in force
+//@ assume func (*Store).GetNetworkDelegOptions
+//@   modifies nothing
+//@   ensures err == nil ==> result0 != nil && result0.RewardsMaturityTime == govNdMaturity(st)
